@@ -876,6 +876,14 @@ func (so *signedObj[P]) apply(b conc[P], a Alter, r *mrand.Rand, t tiers, noops 
 			q.payload = so.ops.content(v.val)
 			rewire("payload:"+v.kind, q)
 		}
+	case "argpayload":
+		// the object embeds its payload and the verifier passes another one: the argument is what gets verified
+		for _, v := range so.ops.variants(r, so.ops.val, false, 6) {
+			c := with(b, "payload-arg-over-embedded:"+v.kind)
+			vv := v.val
+			c.payloadArg = &vv
+			out = append(out, c)
+		}
 	case "aad":
 		set := func(kind string, v []byte) {
 			c := with(b, kind)
